@@ -14,6 +14,8 @@ CONSTANTS ItemCodes, MaxLen, MaxDev, DevTypes
 ItemOf(c) == CASE c = "Ra" -> [k |-> "R", n |-> "a"] [] c = "RB" -> [k |-> "R", n |-> "B"] [] c = "Rb" -> [k |-> "R", n |-> "b"]
                [] c = "Rz" -> [k |-> "R", n |-> "_z"] [] c = "Ga" -> [k |-> "G", n |-> "a"] [] c = "Gb" -> [k |-> "G", n |-> "b"]
                [] c = "O" -> [k |-> "O", n |-> ""] [] c = "M" -> [k |-> "M", n |-> ""] [] c = "A" -> [k |-> "A", n |-> ""]
+               [] c = "P" -> [k |-> "P", n |-> ""]          \* a statement that starts with a parenthesis: `(g)(a)`
+               [] c = "Q" -> [k |-> "Q", n |-> ""]          \* ... `(g).k = 1`: glued to the previous statement it does not even parse
 Items == {ItemOf(c) : c \in ItemCodes}
 VARIABLES prog, devs
 vars == <<prog, devs>>
@@ -26,6 +28,8 @@ ItemTree(it, k) ==
     [] it.k = "O" -> Local(<<"q" \o ToString(k)>>, <<Num(ToString(k))>>)
     [] it.k = "M" -> Local(<<"u" \o ToString(k), "w" \o ToString(k)>>, <<ReqCall(k)>>)
     [] it.k = "A" -> Assign(<<Name("g" \o ToString(k))>>, <<ReqCall(k)>>)
+    [] it.k = "P" -> CallStmt(Chain(<<Par(Name("g")), CallArgs(<<Name("a" \o ToString(k))>>)>>))
+    [] it.k = "Q" -> Assign(<<Chain(<<Par(Name("g")), Leaf("dot", "k")>>)>>, <<Num(ToString(k))>>)
 
 HasDev(ds, t, k) == \E i \in DOMAIN ds : ds[i].t = t /\ ds[i].s = k
 Programs == UNION {[1..n -> Items] : n \in 1..MaxLen}
@@ -39,10 +43,11 @@ DevOptions(p) ==
   (IF "dir" \in DevTypes THEN {[t |-> "dir", s |-> k, x |-> d, y |-> ""] : k \in Idx(p), d \in {"ignore", "start", "end", "ignore_ml"}} ELSE {}) \cup
   (IF "semi" \in DevTypes THEN {[t |-> "semi", s |-> k, x |-> "", y |-> ""] : k \in Idx(p)} ELSE {}) \cup
   (IF "cmt" \in DevTypes THEN {[t |-> "cmt", s |-> k, x |-> "after", y |-> ""] : k \in Idx(p)} ELSE {}) \cup
+  (IF "lead" \in DevTypes THEN {[t |-> "lead", s |-> k, x |-> "block", y |-> ""] : k \in Idx(p)} ELSE {}) \cup
   (IF "mline" \in DevTypes THEN {[t |-> "mline", s |-> k, x |-> "", y |-> ""] : k \in {j \in Idx(p) : p[j].k = "R"}} ELSE {}) \cup
   (IF "range" \in DevTypes THEN {[t |-> "range", s |-> 0, x |-> a, y |-> b] : a \in StartMarks(p), b \in EndMarks(p)} \ {[t |-> "range", s |-> 0, x |-> "none", y |-> "none"]} ELSE {})
 
-TypeRank(t) == CASE t = "sep" -> 1 [] t = "dir" -> 2 [] t = "semi" -> 3 [] t = "cmt" -> 4 [] t = "mline" -> 5 [] t = "range" -> 6
+TypeRank(t) == CASE t = "sep" -> 1 [] t = "dir" -> 2 [] t = "semi" -> 3 [] t = "cmt" -> 4 [] t = "lead" -> 5 [] t = "mline" -> 6 [] t = "range" -> 7
 XRank(x) == CASE x = "blank" -> 1 [] x = "comment" -> 2 [] x = "ignore" -> 1 [] x = "start" -> 2 [] x = "end" -> 3 [] x = "ignore_ml" -> 4 [] OTHER -> 0
 Rank(d) == TypeRank(d.t) * 1000 + d.s * 10 + XRank(d.x)
 
@@ -51,7 +56,7 @@ AddDev ==
   /\ Len(devs) < MaxDev
   /\ \E d \in DevOptions(prog) :
        /\ (devs # <<>> => Rank(d) > Rank(devs[Len(devs)]))
-       /\ (d.t = "range" => devs = <<>>)                       \* a range is explored on its own
+       /\ (d.t = "range" => (devs = <<>> \/ (Len(devs) = 1 /\ devs[1].t = "semi")))   \* a range is explored on its own or next to one `;`
        /\ (d.t = "sep" => ~HasDev(devs, "sep", d.s))
        /\ devs' = Append(devs, d)
   /\ UNCHANGED prog
@@ -66,6 +71,8 @@ Comments ==
                   [] d.t = "sep" /\ d.x = "comment" -> <<[before_stmt |-> d.s - 1, kind |-> "ownlinec", text |-> " note", slot |-> 0]>>
                   [] d.t = "sep" /\ d.x = "blank" -> <<[before_stmt |-> d.s - 1, kind |-> "blankline", text |-> "", slot |-> 0]>>
                   [] d.t = "cmt" -> <<[after_stmt |-> d.s - 1, kind |-> "line", text |-> " tc", slot |-> 0]>>
+                  \* `--[[lead]] local a = require(..)`: a comment that belongs to the statement and has to move with it
+                  [] d.t = "lead" -> <<[before_stmt |-> d.s - 1, kind |-> "block", text |-> "lead", slot |-> 0]>>
                   \* `local a = require(` NEWLINE `"m"` NEWLINE `)`: tokens 5 and 6 of the statement start a new line
                   [] d.t = "mline" -> <<[before_stmt |-> d.s - 1, offset |-> 5, kind |-> "newline", text |-> "", slot |-> 0],
                                        [before_stmt |-> d.s - 1, offset |-> 6, kind |-> "newline", text |-> "", slot |-> 0]>>
@@ -85,5 +92,8 @@ Case ==
   @@ (IF RangeDev = {} THEN <<>> ELSE
         LET r == CHOOSE d \in RangeDev : TRUE IN [range_markers |-> [start |-> r.x, end |-> r.y]])
 
-Emit == PrintT(<<"CASE", ToJson(Case)>>)
+(* a statement that starts with `(` continues the previous one unless a `;` separates them: only programs that mean *)
+(* what the generator means are emitted                                                                              *)
+NeedsSemiOK == \A k \in 2..Len(prog) : prog[k].k \in {"P", "Q"} => HasDev(devs, "semi", k - 1)
+Emit == NeedsSemiOK => PrintT(<<"CASE", ToJson(Case)>>)
 =============================================================================
